@@ -98,6 +98,64 @@ def normalizeT (f : CaseFns) (tableSensitive : Bool) (s : Strategy) (c : TableCt
 def defaultQualifier (f : CaseFns) (tableSensitive : Bool) (s : Strategy) (tagFirst : Bool) (i : Ident) : Ident :=
   normalizeT f tableSensitive s { TableCtx.plain with isTableTag := tagFirst } i
 
+/-! ### lexical visibility of CTE names (sqlglot/optimizer/scope.py: Scope.branch, Scope.__init__, _traverse_ctes)
+
+  Every `Scope` holds a mapping object `cte_sources`; `Scope.branch` gives the inner scope a mapping built from the
+  parent's (`{**self.cte_sources, **extra}`: a NEW object), `Scope.__init__` copies the mapping's entries into the
+  scope's `sources` (a snapshot), and `_traverse_ctes` later adds the scope's own WITH definitions to its mapping IN
+  PLACE (`scope.cte_sources.update(...)`) and to its `sources`.  Whether `branch` really makes a new object is
+  re-read from the source each run (`copies`); with a shared object a nested WITH leaks into later siblings. -/
+
+abbrev CteEnv := List (String × Nat)     -- CTE name ↦ definition id, first match wins
+
+structure CScope where
+  ref : Nat              -- which mapping object this scope's `cte_sources` is
+  sources : CteEnv       -- the scope's `sources`, restricted to CTE names
+deriving DecidableEq, Repr, Inhabited
+
+structure CState where
+  envs : List CteEnv     -- the mapping objects
+  scopes : List CScope
+deriving DecidableEq, Repr, Inhabited
+
+def CState.env (st : CState) (r : Nat) : CteEnv := st.envs.getD r []
+
+/-- `parent.branch(…, cte_sources=extra)`: the new scope gets index `st.scopes.length` -/
+def cbranch (copies : Bool) (st : CState) (p : Nat) (extra : CteEnv) : CState :=
+  match st.scopes[p]? with
+  | none => st
+  | some ps =>
+    let penv := st.env ps.ref
+    if !copies && extra.isEmpty && !penv.isEmpty then
+      { st with scopes := st.scopes ++ [⟨ps.ref, penv⟩] }                    -- the parent's object itself
+    else
+      { envs := st.envs ++ [extra ++ penv], scopes := st.scopes ++ [⟨st.envs.length, extra ++ penv⟩] }
+
+/-- `_traverse_ctes(scope)`: `scope.sources.update(defs); scope.cte_sources.update(defs)` -/
+def cupdate (st : CState) (s : Nat) (defs : CteEnv) : CState :=
+  match st.scopes[s]? with
+  | none => st
+  | some sc =>
+    { envs := st.envs.set sc.ref (defs ++ st.env sc.ref), scopes := st.scopes.set s ⟨sc.ref, defs ++ sc.sources⟩ }
+
+/-- what a table reference named `n` inside scope `s` denotes: a CTE definition, or `none` = a schema table -/
+def cresolve (st : CState) (s : Nat) (n : String) : Option Nat :=
+  (st.scopes[s]?).bind (fun sc => sc.sources.lookup n)
+
+def CState.root : CState := { envs := [[]], scopes := [⟨0, []⟩] }
+
+inductive COp where
+  | branch (p : Nat) (extra : CteEnv)
+  | update (s : Nat) (defs : CteEnv)
+  | resolve (s : Nat) (n : String)
+deriving Repr
+
+def crun (copies : Bool) : CState → List COp → List (Option Nat)
+  | _, [] => []
+  | st, .branch p x :: ops => crun copies (cbranch copies st p x) ops
+  | st, .update s d :: ops => crun copies (cupdate st s d) ops
+  | st, .resolve s n :: ops => cresolve st s n :: crun copies st ops
+
 /-! ## Part 2: the scope model -/
 
 inductive Op where
